@@ -20,9 +20,22 @@ def confirm(wt, sd, feats):
     return suite_ok, demo_fail, demo_pass, txt[-1500:]
 
 
+def readme():
+    rows = []
+    for name in sorted(os.listdir(OUT)):
+        mp = os.path.join(OUT, name, 'meta.json')
+        if os.path.isfile(mp):
+            m = json.load(open(mp))
+            rows.append((name, m['property'], m['kept'], m['caught_by'], m['inconclusive'], m.get('checks_run_against_it', [])))
+    write_readme(rows)
+
+
 def main():
     only = sys.argv[1:]
     os.makedirs(OUT, exist_ok=True)
+    if only == ['--readme']:
+        readme()
+        return
     rows = []
     head = subprocess.run(['git', '-C', '/repo', 'rev-parse', '--short', 'HEAD'], stdout=subprocess.PIPE).stdout.decode().strip()
     todo = []
@@ -37,6 +50,11 @@ def main():
                 sd = os.path.join(wt, 'SEED', k)
                 if os.path.isfile(os.path.join(sd, 'patch.diff')):
                     todo.append((prefix, P, wt, k, sd))
+    full = subprocess.run(['git', '-C', '/repo', 'rev-parse', 'HEAD'], stdout=subprocess.PIPE).stdout.decode().strip()
+    for wt in sorted({t[2] for t in todo}):
+        # the seeds are kept as patches against /repo's current HEAD: confirm them there
+        subprocess.run(['git', '-C', wt, 'checkout', '-q', '--', '.'])
+        subprocess.run(['git', '-C', wt, 'checkout', '-q', '--detach', full])
     for prefix, P, wt, k, sd in todo:
         if True:
             name = '%s%s-%s' % (prefix, P, k)
@@ -80,6 +98,12 @@ def main():
                         shutil.copy(os.path.join(sd, f), os.path.join(d, f))
                 json.dump(meta, open(os.path.join(d, 'meta.json'), 'w'), indent=1)
             print(name, 'kept' if keep else 'NOT CONFIRMED (%s %s %s)' % (suite_ok, demo_fail, demo_pass), 'caught_by=%s' % caught, 'inconclusive=%s' % incon, flush=True)
+    if not only:
+        write_readme(rows)
+    print('done')
+
+
+def write_readme(rows):
     with open(os.path.join(OUT, 'README.md'), 'w') as fh:
         fh.write('# Seeded changes (written by sub-agents from the property text only) and the checks that catch them\n\n')
         fh.write('Each change compiles, passes the pinned suite, and fails its own demonstration (confirmed in a scratch worktree).\n')
@@ -90,7 +114,6 @@ def main():
         for name, P, keep, caught, incon, ran in rows:
             if keep:
                 fh.write('| %s | %s | %s | %s | %s |\n' % (name, P, ', '.join(caught) or '**none**', ', '.join(incon), ', '.join(ran)))
-    print('done')
 
 
 if __name__ == '__main__':
